@@ -46,7 +46,7 @@ def slice_keep(tier: str):
         if fam == "C08":
             return (m["use"] in ("body", "loop") and set(m["lits"]) <= sub9 and j["family"] == "C08"
                     and m["def"] in ("plain", "two_diff", "chain", "perm", "neg", "choice_cond", "disj", "bounds",
-                                     "dneg_loop", "pos_loop"))
+                                     "dneg_loop", "pos_loop", "fact_and_rule"))
         if fam == "C09":
             return m["prod"] == "choice" and m["mid"] in ("none", "copy_swap", "copy_rep", "copy_chain", "copy_proj",
                                                           "once_var", "choice_copy", "copy_three")
